@@ -544,8 +544,7 @@ func epPeeringRequest(t *testing.T, id ident) (v verdict) {
 		var setupErr error
 		var done bool
 		go func() {
-			pan, pv := kit.Try(func() { _, setupErr = tw.r.Peering().VerifSetupLink(ep, nil, false) })
-			if pan {
+			if _, pv := kit.Accept(tw.r, ep); pv != nil {
 				v.panicked, v.detail = true, fmt.Sprint(pv)
 			}
 			done = true
